@@ -34,15 +34,20 @@ def install_linear_solve_stub():
     import lineax as lx
     ORIG['linear_solve'] = lx.linear_solve
 
-    def stub_linear_solve(A, b, solver=None, *, options=None, state=None, throw=True, **kw):
-        RECORD.append((solver, throw, options))
-        leaves, tdef = jax.tree.flatten(b)
+    def _stub_solve(matvec, rhs):
+        """Contract: the returned z satisfies matvec(z) == rhs (fresh atoms, assumed equation)."""
+        leaves, tdef = jax.tree.flatten(rhs)
         z = solve_p.bind(*leaves, n=len(leaves))
         zt = jax.tree.unflatten(tdef, z)
-        r = jax.tree.leaves(A.mv(zt))
+        r = jax.tree.leaves(matvec(zt))
         z2 = assume_p.bind(*z, *r, *leaves, n=len(leaves))
-        return lx.Solution(value=jax.tree.unflatten(tdef, z2), result=lx.RESULTS.successful, stats={},
-                           state=None)
+        return jax.tree.unflatten(tdef, z2)
+
+    def stub_linear_solve(A, b, solver=None, *, options=None, state=None, throw=True, **kw):
+        RECORD.append((solver, throw, options))
+        # lax.custom_linear_solve gives the stub a transpose: (A^-1)^T y is "the z with A^T z == y"
+        value = jax.lax.custom_linear_solve(A.mv, b, solve=_stub_solve, transpose_solve=_stub_solve)
+        return lx.Solution(value=value, result=lx.RESULTS.successful, stats={}, state=None)
 
     lx.linear_solve = stub_linear_solve
     _installed = True
